@@ -141,6 +141,7 @@ BothTr == {FALSE, TRUE}
 PG512 == <<0, 0, 512, 512>>
 Scales28 == {2, 8}
 Scales2864 == {2, 8, 64}
+Scales864 == {8, 64}
 \* the smallest space that shows GridOrderTies: two overprinted glyphs (two lines with the same box when vertical
 \* detection is on) and a third line below; the grid separates them at scale 64 only
 ParamsOver == {Default(TRUE)}
